@@ -52,9 +52,10 @@ VARIABLES parents,   \* input: parents[p] = sequence of batches of keys (constan
           hol,       \* set of parents in the head-of-line heap
           acc,       \* values read so far by the value-by-value puller of the current Pull
           flat,      \* flat[p]: parent p's keys without the batch structure (set once by Start)
+          total,     \* number of input values so far (input construction only)
           out,       \* emitted batches: sequences of <<p, i>>
           pc         \* "build" | "pull" | "read" | "done"
-vars == <<parents, nextb, vals, hol, acc, flat, out, pc>>
+vars == <<parents, nextb, vals, hol, acc, flat, total, out, pc>>
 
 P == Len(parents)
 Flat(p) == flat[p]
@@ -67,7 +68,8 @@ BatchIdx(p, b) == LET start == SumLen(parents[p], b - 1) IN [i \in 1..Len(parent
 SortedKeys(s) == \A i \in 1..Len(s) - 1 : s[i] <= s[i + 1]
 Batches == UNION {[1..m -> 1..K] : m \in 1..MaxBS}
 ParentSeqs == {bs \in UNION {[1..m -> Batches] : m \in 0..MaxPB} : SortedKeys(FlattenSeq(bs))}
-Total(ps) == FoldLeft(LAMBDA a, bs : a + Len(FlattenSeq(bs)), 0, ps)
+\* the same with the number of values attached (constant: evaluated once)
+ParentRecs == {[bs |-> bs, n |-> Len(FlattenSeq(bs))] : bs \in ParentSeqs}
 MaxP == CHOOSE m \in Ps : \A q \in Ps : q <= m
 
 \* replenish(p): the next batch or end of stream (p leaves the heap)
@@ -76,14 +78,15 @@ HasMore(p, nb) == nb[p] < Len(parents[p])
 \* The input is built parent by parent (pc = "build") so that TLC's workers
 \* share the enumeration of inputs; nothing of the operator runs before Start.
 Init ==
-  /\ parents = <<>> /\ nextb = <<>> /\ vals = <<>> /\ hol = {} /\ flat = <<>>
+  /\ parents = <<>> /\ nextb = <<>> /\ vals = <<>> /\ hol = {} /\ flat = <<>> /\ total = 0
   /\ acc = <<>> /\ out = <<>> /\ pc = "build"
 
 AddParent ==
   /\ pc = "build" /\ Len(parents) < MaxP
-  /\ \E bs \in ParentSeqs :
-       /\ Total(parents) + Len(FlattenSeq(bs)) <= MaxN
-       /\ parents' = Append(parents, bs)
+  /\ \E r \in ParentRecs :
+       /\ total + r.n <= MaxN
+       /\ parents' = Append(parents, r.bs)
+       /\ total' = total + r.n
   /\ UNCHANGED <<nextb, vals, hol, acc, flat, out, pc>>
 
 \* start(): replenish every parent, heap.Init
@@ -94,7 +97,7 @@ Start ==
   /\ hol' = {p \in 1..P : Len(parents[p]) > 0}
   /\ flat' = [p \in 1..P |-> FlattenSeq(parents[p])]
   /\ pc' = "pull"
-  /\ UNCHANGED <<parents, acc, out>>
+  /\ UNCHANGED <<parents, acc, out, total>>
 
 HeadK(p) == Flat(p)[vals[p][1]]
 LastV(p) == Flat(p)[vals[p][Len(vals[p])]]
@@ -115,7 +118,7 @@ PullEOS ==
   /\ pc = "pull" /\ hol = {}
   /\ pc' = "done"
   /\ (Export => PrintT(ToString(<<parents, out>>)))
-  /\ UNCHANGED <<parents, nextb, vals, hol, acc, flat, out>>
+  /\ UNCHANGED <<parents, nextb, vals, hol, acc, flat, total, out>>
 
 \* Op.Pull: min := heap.Pop; whole-batch fast path or value-by-value mode
 Pull ==
@@ -130,7 +133,7 @@ Pull ==
                 /\ pc' = "pull" /\ acc' = <<>>
            ELSE /\ pc' = "read" /\ acc' = <<>>           \* heap.Push(o, min); NewPuller(o).Pull
                 /\ UNCHANGED <<nextb, vals, hol, out>>
-  /\ UNCHANGED <<parents, flat>>
+  /\ UNCHANGED <<parents, flat, total>>
 
 \* Op.Read (called by the zbuf puller until PB values are collected or Read returns nil)
 ReadStep ==
@@ -141,14 +144,14 @@ ReadStep ==
           THEN /\ vals' = [vals EXCEPT ![u] = Tail(@)]
                /\ UNCHANGED <<nextb, hol>>
           ELSE Replenish(u)
-  /\ UNCHANGED <<parents, flat, out, pc>>
+  /\ UNCHANGED <<parents, flat, total, out, pc>>
 
 \* the zbuf puller returns its batch: full, or Read returned nil
 ReadEnd ==
   /\ pc = "read" /\ (Len(acc) = PB \/ hol = {})
   /\ out' = IF acc # <<>> THEN Append(out, acc) ELSE out
   /\ acc' = <<>> /\ pc' = "pull"
-  /\ UNCHANGED <<parents, flat, nextb, vals, hol>>
+  /\ UNCHANGED <<parents, flat, total, nextb, vals, hol>>
 
 Next == AddParent \/ Start \/ PullEOS \/ Pull \/ ReadStep \/ ReadEnd
 Spec == Init /\ [][Next]_vars
